@@ -82,12 +82,13 @@ pub fn pagerank(
             *score += dangling_contrib;
         }
 
-        // Check convergence (largest change of any score, the same criterion as the Python backend)
+        // Check convergence (total change of the scores, the same criterion as the Python backend: the
+        // iteration contracts in the L1 norm, so this bounds the residual of the PageRank equation by tol)
         let diff: f64 = scores
             .iter()
             .zip(new_scores.iter())
             .map(|(a, b)| (a - b).abs())
-            .fold(0.0, f64::max);
+            .sum();
 
         std::mem::swap(&mut scores, &mut new_scores);
 
